@@ -201,12 +201,12 @@ def run(rep, tier):
     cfgs = ["x86"] if tier == "quick" else ["x86", "x86-rayon", "arm", "wasm"]
     for cfg, prog in programs(cfgs):
         rep.set_cfg(cfg)
-        alpha_rules.alpha_set(rep, prog, "C06.alpha-set")
-        saturate(rep, prog, "C06.saturate")
+        rep.call(alpha_rules.alpha_set, rep, prog, "C06.alpha-set")
+        rep.call(saturate, rep, prog, "C06.saturate")
         if cfg.startswith("x86") or cfg == "wasm":
-            convert_range(rep, prog, "C06.convert-range")
-        alpha_lane(rep, prog, "C06.alpha-lane")
-        variants(rep, prog, "C06.variants")
+            rep.call(convert_range, rep, prog, "C06.convert-range")
+        rep.call(alpha_lane, rep, prog, "C06.alpha-lane")
+        rep.call(variants, rep, prog, "C06.variants")
         if cfg != "wasm":
-            n = c03.arith(rep, prog, "C06.scalar-range", only=lambda f: f.file == "src/alpha/common.rs")
+            n = rep.call(c03.arith, rep, prog, "C06.scalar-range", only=lambda f: f.file == "src/alpha/common.rs") or 0
             rep.floor("C06.scalar-range", "arithmetic asserts in alpha/common.rs", n, 10)
